@@ -52,14 +52,15 @@ Definition s_proto (p : proto) : sexp :=
 Definition as_reply (s : sexp) : option reply :=
   match s with
   | SList [SNum 0; c; ok] => odo cc <- as_opt as_bytes c ;; odo b <- as_bool ok ;; Some (RData cc b)
-  | SList [SNum 1] => Some RNack
+  | SList [SNum 1; r] => option_map RNack (as_num r)
+  | SList [SNum 1] => Some (RNack 150)                (* replay files written before the reason was an input *)
   | SList [SNum 2] => Some RTimeout
   | _ => None
   end.
 Definition s_reply (r : reply) : sexp :=
   match r with
   | RData c ok => SList [SNum 0; s_opt SBytes c; s_bool ok]
-  | RNack => SList [SNum 1]
+  | RNack n => SList [SNum 1; SNum n]
   | RTimeout => SList [SNum 2]
   end.
 
